@@ -53,7 +53,7 @@ func init() {
 		Explanation: "Decides copy-before-mutate and restore-after-remove shapes in d2ir: (1) in overlay and overlayClasses every map handed to OverlayMap or DeleteField as the destination derives from a Copy/CopyBase made in that function (its nearest definition is a copy), never from the parameter/base itself; " +
 			"(2) CopyBase puts back every board field it temporarily removes from the base (each DeleteField result is re-appended under a nil test before the function returns) and copies after removing them, so boards are not copied into their children; " +
 			"(3) a forked glob context owns its applied-sets: copyApplied assigns a fresh map to every map-typed field of globContext on every path (the struct copy made by copy() shares them otherwise); " +
-			"(4) a mutating walk towards the root stops at the board boundary: in DeleteField(Key) the step to the parent map is reached only when the current map is not a board root (otherwise `obj: null` in a scenario deletes connections of its base).",
+			"(4) a mutating walk towards the root stops at the board boundary: in DeleteField(Key) the step to the parent map is reached only when the current map is not a board root (otherwise `obj: null` in a scenario deletes connections of its base).; every glob context forked for a scenario or a step in compileMap calls copyApplied (a step that shared the applied sets of its base marked the base's objects as done).",
 		NotCovered: "what a board shows (inheritance semantics per board kind), glob-context copying per board kind",
 		Technique:  "static analysis: value provenance of destination arguments, paired remove/re-append on the typed AST",
 		Run:        runC15,
@@ -935,6 +935,57 @@ func runC15(c *core.Check) {
 		}
 		if n == 0 {
 			c.Fail("C15.copy-before-mutate", name+":none", fi.Decl.Pos(), "no OverlayMap/DeleteField call found")
+		}
+	}
+	// every fork of a glob context for an inheriting board takes its own applied sets
+	c.Rule("C15.fork-copies-applied", "a glob context copied for a scenario or a step calls copyApplied (unless the glob is a triple glob)")
+	if cm := mustFunc(c, "d2ir", "compiler", "compileMap"); cm != nil {
+		info := cm.Pkg.TypesInfo
+		fl := core.NewFlow(cm.Pkg, cm.Decl.Body)
+		nf := 0
+		ast.Inspect(cm.Decl.Body, func(n ast.Node) bool {
+			rs, ok := n.(*ast.RangeStmt)
+			if !ok {
+				return true
+			}
+			for _, st := range rs.Body.List {
+				as, ok := st.(*ast.AssignStmt)
+				if !ok || as.Tok != token.DEFINE || len(as.Lhs) != 1 || len(as.Rhs) != 1 {
+					continue
+				}
+				call, ok := ast.Unparen(as.Rhs[0]).(*ast.CallExpr)
+				if !ok || !core.IsCallTo(info, call, "d2ir.(*globContext).copy") {
+					continue
+				}
+				// under a test of the board kind for a scenario or a step
+				kind := ""
+				for _, g := range fl.GuardsOfNode(as) {
+					for _, a := range g.Atoms() {
+						cs := exprStr(a.Cond)
+						if a.True && strings.Contains(cs, "NodeBoardKind(") && (strings.Contains(cs, "BoardScenario") || strings.Contains(cs, "BoardStep")) {
+							kind = cs
+						}
+					}
+				}
+				if kind == "" {
+					continue
+				}
+				nf++
+				fork := core.ObjOf(info, as.Lhs[0])
+				copies := core.Contains(rs.Body, func(y ast.Node) bool {
+					cl, ok := y.(*ast.CallExpr)
+					if !ok || !core.IsCallTo(info, cl, "d2ir.(*globContext).copyApplied") {
+						return false
+					}
+					sel, ok := ast.Unparen(cl.Fun).(*ast.SelectorExpr)
+					return ok && core.ObjOf(info, sel.X) == fork
+				})
+				c.Decide(copies, "C15.fork-copies-applied", "compileMap:fork:"+kind, as.Pos(), "the fork calls copyApplied", "a glob context is copied for an inheriting board ("+kind+") and keeps sharing the applied sets of the context it was copied from: what the glob applies inside the board marks the base board's objects as done, and the base's later declarations are skipped")
+			}
+			return true
+		})
+		if nf < 2 {
+			c.Fail("C15.fork-copies-applied", "compileMap:forks", cm.Decl.Pos(), fmt.Sprintf("only %d forks of glob contexts for scenarios/steps found", nf))
 		}
 	}
 	c.Rule("C15.fork-owned-sets", "copyApplied gives the forked glob context its own map for every map-typed field, unconditionally")
